@@ -17,6 +17,8 @@
 //   rt   <msg>            -> dump of decode(encode(msg))            | reject
 //   encs <key-hex> <msg>  -> hex of encode_signed(msg, key)
 //   rts  <key-hex> <msg>  -> dump of decode_signed(encode_signed(msg,key),key) | reject
+//   svs  <key-hex> <msg>  -> `same` if decode_signed(encode_signed(msg,key),key) and decode(encode(msg)) print alike,
+//                            else `differ:<signed result>|<plain result>` (spaces as '_')
 //   dec  <hex>            -> dump of decode(bytes)                  | reject
 //   reenc <hex>           -> hex of encode(decode(bytes))           | reject
 //   decs <key-hex> <hex>  -> dump of decode_signed(bytes, key)      | reject
@@ -170,6 +172,20 @@ int main(int argc, char** argv) {
             if (op == "encs") return verif::hex_or_dash(verif::to_hex(bytes));
             Exact buf(bytes);
             return dump_opt(decode_signed(buf.span(), key.span()));
+        }
+        if (op == "svs") {
+            if (t.size() < 2 || !valid_hex(t[1])) return "bad-op";
+            Message m{};
+            if (!parse_msg(t, 2, m)) return "bad-op";
+            Exact key(verif::from_hex(t[1]));
+            Exact sbuf(encode_signed(m, key.span()));
+            Exact pbuf(encode(m));
+            const std::string a = dump_opt(decode_signed(sbuf.span(), key.span()));
+            const std::string b = dump_opt(decode(pbuf.span()));
+            if (a == b) return "same";
+            std::string out = "differ:" + a + "|" + b;
+            for (auto& c : out) if (c == ' ') c = '_';
+            return out;
         }
         if ((op == "dec" || op == "reenc") && t.size() == 2 && valid_hex(t[1])) {
             Exact buf(verif::from_hex(t[1]));
